@@ -4,7 +4,7 @@
  *    defined here as memmove/memset/memcmp.  Natively the libc ones are used.
  *  - rand(): used once by the library (shuffle of repair-symbol injection order
  *    in ML decoding).  The harness decides what it returns: VERIF_RAND_MODE
- *    0 = always 0, 1 = 0,1,2,..., 2 = a fresh input byte per call.
+ *    0 = always 0, 1 = 0,1,2,..., 3 = 3,10,17,..., 2 = a fresh input byte per call.
  *    Defined in both CBMC and native builds so that replays see the same values.
  *  - sqrt(): CBMC's model is a constrained nondeterministic value; the one use
  *    (floor(sqrt(n)), n <= 24+, 2D-parity constructor) gets an exact stub.
@@ -23,6 +23,8 @@ int rand(void)
 	return 0;
 #elif VERIF_RAND_MODE == 1
 	return (int)(verif_rand_ctr++);
+#elif VERIF_RAND_MODE == 3
+	return (int)(7u * verif_rand_ctr++ + 3u);
 #else
 	return (int)in_u8();
 #endif
